@@ -483,6 +483,29 @@ pub fn run(ctx: &'static Ctx) -> (&'static str, Value, Vec<&'static str>) {
         })
         .reduce(Stats::new, Stats::merge);
     stats = stats.merge(arch);
+    // the site field is four characters of any kind: every printable ASCII character at every
+    // position, and every four-letter word over {A,Z,a,z,0,9,_,-} (sites with digits exist)
+    {
+        let mut sites: Vec<String> = Vec::new();
+        for pos in 0..4 {
+            for c in 0x20u8..0x7F {
+                let mut b = *b"KDMX";
+                b[pos] = c;
+                sites.push(String::from_utf8_lossy(&b).to_string());
+            }
+        }
+        let alpha = [b'A', b'Z', b'a', b'z', b'0', b'9', b'_', b'-'];
+        for w in words(alpha.len() as u64, 4) {
+            sites.push(w.iter().map(|i| alpha[*i as usize] as char).collect());
+        }
+        for site in &sites {
+            for suf in ["_V06", ""] {
+                check_archive_name(ctx, site, 2022, 3, 5, 23, 23, 24, suf);
+                stats.eval();
+            }
+        }
+        stats.count("archive_names_over_site_alphabet", sites.len() as u64 * 2);
+    }
     let secs: Stats = (0..86400i64)
         .into_par_iter()
         .fold(Stats::new, |mut st, sec| {
@@ -557,7 +580,7 @@ pub fn run(ctx: &'static Ctx) -> (&'static str, Value, Vec<&'static str>) {
     stats = stats.merge(tot);
 
     let mut cov = stats.coverage(
-        "stateright BFS+DFS over the successor graph whose transition function is the real ChunkIdentifier::next_chunk (reachable set must be exactly 999x55); then every (volume, sequence) x 3 prefixes as an initial state, in-degree and full orbit; all names parse back; with_sequence 55x55; successor and with_sequence (55 x 55) for every date of 2024 x 3 (thorough 6) times of day as prefix; archive names for every date 1991..2040 x 3 times x suffixes and every second of one day; totality over multi-byte insert/replace at every offset and all short strings over a 10-symbol alphabet. non-trivial = distinct position/name/date/string",
+        "stateright BFS+DFS over the successor graph whose transition function is the real ChunkIdentifier::next_chunk (reachable set must be exactly 999x55); then every (volume, sequence) x 3 prefixes as an initial state, in-degree and full orbit; all names parse back; with_sequence 55x55; successor and with_sequence (55 x 55) for every date of 2024 x 3 (thorough 6) times of day as prefix; archive names for every date 1991..2040 x 3 times x suffixes and every second of one day, and for every printable ASCII character at every site position plus all 4-letter sites over {A,Z,a,z,0,9,_,-}; totality over multi-byte insert/replace at every offset and all short strings over a 10-symbol alphabet. non-trivial = distinct position/name/date/string",
         true,
         json!({"positions": 54945, "dates": dates.len(), "totality_alphabet": alpha, "totality_len": maxlen}),
     );
